@@ -258,3 +258,15 @@ def abstract_states(script: dict, run: Any) -> set:
             continue
         out.add((min(live.get(node, 0), 6), min(max(queued.get(node, 0), 0), 6), phase.get(node, 0), A, P))
     return out
+
+
+def maybe_cli_entry(script: dict, index: int, mod: int, k: int) -> dict:
+    """Every mod-th single-worker run starts its worker through the real `taskiq worker` child entry point
+    (taskiq.cli.worker.run.start_listen): the command-line arguments -> Receiver mapping is then part of the run."""
+    cfg = script["config"]
+    if index % mod != k or cfg.get("workers") != 1 or cfg.get("transport") == "inmemory" or cfg.get("entry"):
+        return script
+    if any(op.get("op") in ("crash", "restart") for op in script.get("ops", [])):
+        return script
+    cfg["entry"] = "cli"
+    return script
